@@ -126,6 +126,56 @@ fn is_sslv3_sh(m: &M) -> bool {
     matches!(m, M::ServerHello { version: 0x0300, .. })
 }
 
+/// A writer that takes at most `k` bytes per call (a socket, a pipe): short writes are the environment's answer.
+struct Trickle(Vec<u8>, usize);
+impl std::io::Write for Trickle {
+    fn write(&mut self, b: &[u8]) -> std::io::Result<usize> {
+        let n = b.len().min(self.1);
+        self.0.extend_from_slice(&b[..n]);
+        Ok(n)
+    }
+    fn flush(&mut self) -> std::io::Result<()> {
+        Ok(())
+    }
+}
+
+/// The serializer against writers that accept fewer bytes than offered: a slice of every capacity 0..=len+1
+/// (selected capacities for long outputs) and a writer taking 1 / 3 bytes per call. The outcome is either an
+/// error or exactly the bytes `full`; "success" with anything else presents bytes as valid that are not.
+macro_rules! bounded_writers {
+    ($full:expr, $out:expr, $label:expr, $gen:expr) => {{
+        let full: &[u8] = $full;
+        let n = full.len();
+        let caps: Vec<usize> = if n <= 300 { (0..=n + 1).collect() } else { vec![0, 1, 4, 5, 6, 9, 10, 43, n / 2, n - 2, n - 1, n, n + 1] };
+        for cap in caps {
+            let mut buf = vec![0xa5u8; cap];
+            let res = gen_simple($gen, &mut buf[..]).map(|rest| rest.len());
+            match res {
+                Ok(rest) => {
+                    let written = cap - rest;
+                    if written != n || buf[..written] != *full {
+                        $out.push(format!("{}: writing into a buffer of {} bytes succeeds with {} bytes ({}), the value serializes to {} bytes", $label, cap, written, hexshort(&buf[..written]), n));
+                        break;
+                    }
+                }
+                Err(_) => {
+                    if cap >= n {
+                        $out.push(format!("{}: writing into a buffer of {} bytes fails although the value needs {}", $label, cap, n));
+                        break;
+                    }
+                }
+            }
+        }
+        for k in [1usize, 3] {
+            if let Ok(t) = gen_simple($gen, Trickle(Vec::new(), k)) {
+                if t.0 != full {
+                    $out.push(format!("{}: a writer taking {} byte(s) per call ends with success and {} bytes ({}), expected an error or the {} bytes", $label, k, t.0.len(), hexshort(&t.0), n));
+                }
+            }
+        }
+    }};
+}
+
 /// all laws for one message serialized on its own
 fn check_message(m: &M) -> Vec<String> {
     let r = guarded(|| {
@@ -147,6 +197,7 @@ fn check_message(m: &M) -> Vec<String> {
                 return out;
             }
         };
+        bounded_writers!(&bytes, out, "message", gen_tls_message(&msg));
         // also through the handshake-level Serialize impl
         if let TlsMessage::Handshake(h) = &msg {
             if h.serialize().ok().as_ref() != Some(&bytes) {
@@ -216,6 +267,9 @@ fn check_record(msgs: &[M], rec_version: u16) -> Vec<String> {
             return out; // beyond the u16 record length: outside wire limits
         }
         rec.hdr.len = (bytes.len() - 5) as u16;
+        if bytes.len() <= 4000 {
+            bounded_writers!(&bytes, out, "record", gen_tls_plaintext(&rec));
+        }
         if rec.hdr.len as usize > (1 << 14) + 256 {
             return out; // valid serialization, but longer than a record may be: parse-back is not required
         }
@@ -375,6 +429,9 @@ fn check_ext_list(es: &[E]) -> Vec<String> {
         if bytes.len() < 2 || u16::from_be_bytes([bytes[0], bytes[1]]) as usize != bytes.len() - 2 {
             out.push(format!("extension block length prefix wrong in {}", hexshort(&bytes)));
             return out;
+        }
+        if bytes.len() <= 2000 {
+            bounded_writers!(&bytes, out, "extension list", gen_tls_extensions(&built));
         }
         let block = &bytes[2..];
         if !matches!(wire::ref_extensions(block), Ref::Must(_, c) if c == block.len()) {
@@ -673,7 +730,7 @@ fn main() {
     cov.insert("parsed_records".into(), json!(nparsed));
     cov.insert("extension_lists".into(), json!(nel));
     cov.insert("rule".into(), json!(
-        "catalogue of serializable values (ClientHello over 7 versions x 4 session ids x 5 cipher lists incl. 32767 entries x 4 compression lists incl. 255 x 4 extension blocks incl. 65535 bytes; ServerHello 0300..0303 (SSLv3 without extensions); draft-18 ServerHello; ClientKeyExchange Unknown/Dh/Ecdh and Finished with bodies 0/1/2/255/256(/65535/70000); HelloRequest; ChangeCipherSpec), every one of the 14 unsupported message kinds and 25 unsupported extension variants; records of 1..3 small messages, all 65536 record versions; every parsed record of the C03 catalogue; every hello of the field cross product (8 versions x 7 randoms incl. the HelloRetryRequest value x 2 session ids x 60 cipher kinds x 5 (thorough: 256) compression ids x 4 extension blocks) that parses; SNI / max_fragment_length (all 256) / supported_groups (full sweep) singly and in lists. Laws: serialize succeeds, strict reference walker accepts the bytes (all length fields), the parser consumes them entirely and returns the value (two permitted normalisations), serialize(parse(bytes)) == bytes, unsupported -> NotYetImplemented. Non-trivial: every value"));
+        "catalogue of serializable values (ClientHello over 7 versions x 4 session ids x 5 cipher lists incl. 32767 entries x 4 compression lists incl. 255 x 4 extension blocks incl. 65535 bytes; ServerHello 0300..0303 (SSLv3 without extensions); draft-18 ServerHello; ClientKeyExchange Unknown/Dh/Ecdh and Finished with bodies 0/1/2/255/256(/65535/70000); HelloRequest; ChangeCipherSpec), every one of the 14 unsupported message kinds and 25 unsupported extension variants; records of 1..3 small messages, all 65536 record versions; every parsed record of the C03 catalogue; every hello of the field cross product (8 versions x 7 randoms incl. the HelloRetryRequest value x 2 session ids x 60 cipher kinds x 5 (thorough: 256) compression ids x 4 extension blocks) that parses; SNI / max_fragment_length (all 256) / supported_groups (full sweep) singly and in lists. Laws: serialize succeeds, into a slice of every capacity 0..=len+1 and into writers taking 1 / 3 bytes per call the outcome is an error or exactly those bytes, strict reference walker accepts the bytes (all length fields), the parser consumes them entirely and returns the value (two permitted normalisations), serialize(parse(bytes)) == bytes, unsupported -> NotYetImplemented. Non-trivial: every value"));
     // the same check against the crate built with all cargo features (std, serialize, unstable)
     let mut sink = sink;
     run.all_features_variant(&mut sink);
